@@ -25,11 +25,18 @@ ASCII = "".join(chr(c) for c in range(0x20, 0x7F))
 ALPHA = ASCII + LATIN1 + GREEK
 
 
+# strings that look like markup to other parts of the library (LaTeX-style commands, super/subscript and comparison
+# shorthands, page fields, braces): for the width function they are plain characters
+TOKENS = ["\\pm", "\\alpha", "\\beta", "\\leq", "\\geq", "\\mu", "\\infty", "\\Delta", "\\mathbb{R}", "\\pagenumber", "\\totalpage", "\\pagefield",
+          "\\times", "\\sigma", "\\le", "\\pi", "^2", "_i", ">=", "<=", "{", "}", "\\", "\\line", "\\par", "\\u8804?", "\\'e9", "&amp;", "%s", "\\n"]
+
+
 def strategy(tier):
     size = st.one_of(st.integers(4, 48), st.integers(8, 96).map(lambda x: x / 2),
                      st.floats(4, 48, allow_nan=False).map(lambda x: round(x, 3)))
+    marked = st.lists(st.one_of(st.sampled_from(TOKENS), st.sampled_from(TOKENS), st.text(alphabet=ASCII, max_size=4)), min_size=1, max_size=5).map("".join)
     text = st.one_of(st.text(alphabet=ALPHA, max_size=40), st.text(alphabet=ASCII, max_size=40),
-                     st.text(alphabet=LATIN1 + "ab ", max_size=12))
+                     st.text(alphabet=LATIN1 + "ab ", max_size=12), marked)
     return st.fixed_dictionaries({
         "text": text,
         "c": st.sampled_from(ALPHA),
@@ -55,6 +62,15 @@ def enumerate_cases(tier):
         for ch in chars:
             yield {"text": ch, "c": "M", "font": font, "size": 9, "size2": 12.5, "dpi": 96.0,
                    "bad_font": 11, "bad_name": "x", "bad_unit": "cm"}
+    # every markup-like token completed by its last character (appending it must not shrink the text), alone, after a
+    # word and before a word, in a proportional and in the monospaced font
+    for tok in TOKENS:
+        for font in (1, 4, 9):
+            for pre, post in (("", ""), ("Mean ", ""), ("n ", " x")):
+                yield {"text": pre + tok[:-1], "c": tok[-1], "font": font, "size": 10, "size2": 20, "dpi": 72.0,
+                       "bad_font": 0, "bad_name": "x", "bad_unit": "pt"}
+                yield {"text": pre + tok + post, "c": " ", "font": font, "size": 10, "size2": 20, "dpi": 72.0,
+                       "bad_font": 0, "bad_name": "x", "bad_unit": "pt"}
 
 
 def rel(a, b, tol=1e-9):
